@@ -95,7 +95,24 @@ def queries(tier):
                         env=["env_alloc.c", "env_misc.c", "env_sync.c", "env_aio.c", "env_libc.c"], defs={"STARTAIO": cls}, unwind=30, timeout=300,
                         group="~c14/dialer_connect.c#STARTAIO",
                         params={"call_site": "nni_dialer_start_aio", "user_aio_state": nm, "connect_result": "any nng_err"}))
+    qs += tcp_dialer_queries(tier)
     return qs
+
+
+def tcp_dialer_queries(tier):
+    """several dial operations queued on one TCP stream dialer (real core/tcp.c): each completes exactly once, none is left behind"""
+    from vp import skel
+    from vp.skel import KIT_RULES
+    DENV = ["env_alloc.c", "env_misc.c", "env_sync.c", "env_aio.c", "env_msg.c", "env_pipe.c", "env_libc.c"]
+    words = ["D(0) RS(1) CN(1)", "D(0) D(1) RS(1) CN(0) RS(1) CN(1)", "D(0) D(1) RS(0) RS(1) CN(1)", "D(0) X(0) D(1) RS(1) CN(1)", "D(0) D(1) CL", "D(0) RS(1) X(0)",
+             "D(0) D(1) X(0) RS(1) CN(1)", "D(0) RS(1) CL D(1)", "D(0) D(1) D(2) RS(1) CN(1) RS(1) CN(0) RS(0)", "D(0) RS(1) CN(1) D(1) RS(1) CN(1)", "D(0) D(1) RS(1) X(1) CN(1)",
+             "D(0) RS(1) CNX(0)", "D(0) D(1) RS(1) CNX(0)", "D(0) D(1) RS(1) CN(0) RS(0)", "D(0) RS(0) D(1) RS(1) CN(0) D(2) RS(1) CN(1)", "D(0) D(1) RS(1) CN(1) CL", "CL D(0)",
+             "D(0) D(1) RS(1) CN(0) X(1)"]
+    if tier != "quick":
+        words += ["D(0) D(1) D(2) D(3) RS(1) CN(0) RS(0) RS(1) CN(1) RS(1) CN(1)", "D(0) D(1) RS(1) CN(0) RS(1) CNX(1)", "D(0) D(1) D(2) X(1) RS(1) CN(1) RS(1) CN(1)", "D(0) D(1) RS(1) CL"]
+    return [Query("tcp-dialer-%s" % skel.tag(w), "c02/tcp_dialer.c", tus=["core/list.c"], env=DENV, defs={"SKEL": w}, cdefs=["-DENV_MSG_CAP=8"], unwind=12, unwind_rules=KIT_RULES,
+                  timeout=300, group="c02/tcp_dialer.c", params={"unit": "core/tcp.c stream dialer", "skeleton": w}) for w in words]
+
 
 MANIFEST = {
     "text": "Bounded symbolic check of the real core/aio.c under nested schedules (every outer operation word x every single operation of another thread at a symbolic yield point: callback exactly once, never a timeout before the deadline, first winner's result, nothing pending after nng_aio_stop), of its timing rules in sequential words with a shadow deadline that is independent of the aio's fields (which of nng_aio_set_timeout / nng_aio_set_expire decides, zero/infinite/default, nng_sleep_aio within / beyond the aio timeout, a cancel after completion does not reach the next operation and does not change the result the operation was completed with), of its expiry thread with up to 4 timed operations and a batch size of 2 (every due operation is completed once with NNG_ETIMEDOUT, never early, the thread never sleeps past one that is due), of the real core/taskq.c busy accounting (each dispatch/exec runs the callback exactly once, busy <=> something outstanding, wait returns only then) and of nni_dialer_start_aio / dialer_connect_cb completing the user aio exactly once.",
